@@ -240,6 +240,24 @@ def validate_traces(module, cfg, trace_file, name, shards=8, timeout=600, max_re
     return accepted, rejections, stats, len(scen)
 
 
+def second_opinion(module, cfg, rejections, name, timeout=600):
+    """A scenario that the step-by-step trace specification rejects is put to the specification of what can
+    be observed from outside (trace points not required, silent steps): -> (still rejected, explained).
+    A run whose internal steps are organised differently but which shows the same is not a violation."""
+    from concurrent.futures import ThreadPoolExecutor
+    base = workdir(name)
+
+    def work(args):
+        i, r = args
+        res, _ = _validate_chunk(module, cfg, r["lines"], os.path.join(base, "r%d" % i), timeout)
+        return res
+    with ThreadPoolExecutor(max_workers=8) as ex:
+        verdicts = list(ex.map(work, list(enumerate(rejections))))
+    still = [r for r, v in zip(rejections, verdicts) if v is not None]
+    explained = [r for r, v in zip(rejections, verdicts) if v is None]
+    return still, explained
+
+
 # --------------------------------------------------------------------------- findings
 
 def known_findings():
